@@ -242,6 +242,14 @@ inductive Event
   | allocElems (req remaining : Nat)     -- `Vec::<Value>::with_capacity(req)`, `remaining` unread bytes
   deriving Repr, DecidableEq
 
+/-- What the property demands of a ghost event of a run over an input of `total` bytes: the
+recursion never goes deeper than the limit plus the one call that rejects, and every reservation
+is covered by the bytes still unread (16 per dimension pair, at least 1 per element). -/
+def Event.Ok (total : Nat) : Event → Prop
+  | .enter depth => depth ≤ maxDepth + 1
+  | .allocDims req remaining => 16 * req ≤ remaining ∧ remaining ≤ total
+  | .allocElems req remaining => req ≤ remaining ∧ remaining ≤ total
+
 /-- Result of a reader action: the `Result`, the unread rest (`reader.offset` advanced) and the
 ghost log. -/
 structure W (α : Type) where
